@@ -175,9 +175,10 @@ CollectAttributes(tagLen, attrs, selfIndent, indent) ==
 ItemsContent(items) == [i \in DOMAIN items |-> [n |-> items[i].n, raw |-> items[i].raw]]
 \* (c) + (d) as a theorem over attribute lists (checked over generated lists, XmlWriterMC):
 WrapOnlyWhitespace(tagLen, attrs, selfIndent) ==
-    /\ ItemsContent(CollectW(TRUE, tagLen, attrs, selfIndent)) = ItemsContent(CollectW(FALSE, tagLen, attrs, selfIndent))
-    /\ \A i \in DOMAIN CollectW(TRUE, tagLen, attrs, selfIndent) :
-           CollectW(TRUE, tagLen, attrs, selfIndent)[i].sep \in {"sp", "nl"}
+    LET w == CollectW(TRUE, tagLen, attrs, selfIndent)
+        u == CollectW(FALSE, tagLen, attrs, selfIndent)
+    IN /\ ItemsContent(w) = ItemsContent(u)
+       /\ \A i \in DOMAIN w : w[i].sep \in {"sp", "nl"}
 NoneVanish(tagLen, attrs, selfIndent, indent) ==
     LET items == CollectAttributes(tagLen, attrs, selfIndent, indent)
         vis == Visible(attrs)
@@ -388,7 +389,8 @@ CtxOwn == \A i \in DOMAIN ctxs :
              /\ ctxs[i].h >= 1 /\ ctxs[i].h <= Len(stack) /\ stack[ctxs[i].h] = ctxs[i].name
              /\ (i > 1 => ctxs[i - 1].h < ctxs[i].h)
 ContextsOwnTheirElements == ~misuse => CtxOwn
-ContextsOwnTheirElementsStrict == CtxOwn            \* violated iff AllowMisuse (witness cfg)
+\* with AllowMisuse a with-block left over an un-popped push_tag() closes the wrong element; from then on
+\* `misuse` is set and ClosedInOrder is silent (caller error).  CtxOwn itself survives: the with-block is gone.
 
 \* "every opened element is closed in order even when the writing code raises":
 \* leaving n with-blocks (normally or by an exception) closes exactly their elements and everything
@@ -409,6 +411,19 @@ LosslessAsStated == ~DocHasCR(doc) => ParseTokens(out) = Ok(AbsDoc(doc))  \* C20
 NoneOmitted == \A i \in DOMAIN out : out[i].t \in {"open", "leaf"} =>
                    \A j \in DOMAIN out[i].attrs : out[i].attrs[j].sep \in {"sp", "nl"}
 WellFormedWhenComplete == Complete => (ParseTokens(out).ok /\ OpenStack(out).st = <<>>)
+
+\* the conjunction of all the state invariants above with the two parses of `out` shared (TLC evaluates
+\* every INVARIANT separately; the quick configurations check this one, the thorough ones the named ones)
+Combined ==
+    LET o == OpenStack(out)
+        p == IF o.ok THEN ParseFrom(out, 1, <<>>) ELSE Err
+    IN /\ o.ok /\ o.st = stack                                   \* PrefixBalanced, BalancedWhenEmpty
+       /\ IndentInv
+       /\ ContextsOwnTheirElements
+       /\ p.ok /\ p.v = NormDoc(doc)                              \* Lossless
+       /\ (~DocHasCR(doc) => p.v = AbsDoc(doc))                   \* LosslessAsStated
+       /\ NoneOmitted
+       /\ (Complete => o.st = <<>>)                               \* WellFormedWhenComplete
 
 ---------------------------------------------------------------------------
 (* 5. PROPERTY LAYER OVER OBSERVATIONS (used by XmlWriterTrace)            *)
